@@ -1,4 +1,7 @@
 import TwistedProps.C17.World
+import TwistedProps.C17.Wire
+import TwistedProps.C17.Quiesce
+import TwistedProps.C17.Mono
 /-!
 C17 — the TLS memory-BIO layer delivers application bytes intact and terminates cleanly.
 
@@ -12,8 +15,9 @@ FULL STATEMENT (property C17):
   for every schedule, each application receives exactly the bytes the peer wrote before its loseConnection, in order,
   followed by exactly one connectionLost; both underlying transports are eventually closed.
 
-What is proved here, for EVERY schedule, every number of handshake flights, every engine record limit ≥ 1, either
-protocol class on either side, with or without a write from `handshakeCompleted`:
+What is proved here, for EVERY schedule, every number of handshake flights, every engine record limit 1..255 (the
+range of the stand-in engine: one length byte per record), either protocol class on either side, with or without a
+write from `handshakeCompleted`:
 
  * `sender_accounting`      every byte an application wrote before its loseConnection is — in order, none missing, none
                             twice — either already inside the TLS engine, or in `_appSendBuffer`, or in the aggregator
@@ -22,20 +26,39 @@ protocol class on either side, with or without a write from `handshakeCompleted`
                             violated (write from handshakeCompleted overtaking `_appSendBuffer`).
  * `receiver_accounting`    what an application has received, plus what the engine still holds decrypted, is exactly
                             what the engine decoded (unless the side aborted); always a prefix (`delivered_in_order`).
+ * `engine_pair_contract`   (formerly a HYPOTHESIS) what Y's engine decoded is a prefix of what X's engine accepted:
+                            the bytes in flight `Y.inB ++ X.out ++ X.outB` always are the encoding of a list of
+                            well-formed records whose data payloads are exactly `sentPlain(X)` minus `recvPlain(Y)`
+                            (`WInv`, C17/Chan.lean + C17/Wire.lean); `_flushSendBIO`'s 32768-byte slices, arbitrary
+                            delivery segments and a transport told to close only ever cut that stream at its tail.
+ * `app_bytes_intact`       END TO END, NO HYPOTHESIS ON THE RUN: received(Y) is a prefix of what X wrote before its
+                            loseConnection, in every reachable state.
+ * `all_decoded_at_close_notify`  no data record follows a close_notify and none is lost before it: once Y's engine
+                            has read X's close_notify, recvPlain(Y) = sentPlain(X).
+ * `app_bytes_exact_when_drained`, `app_bytes_exact_at_clean_close`, `app_bytes_exact_after_clean_close`
+                            "EXACTLY the bytes written before the peer's loseConnection": in every state in which the
+                            direction is drained; at the clean-close point (X called loseConnection with its TLS
+                            connection up and its buffer flushed, Y has read X's close_notify); and in EVERY LATER STATE
+                            of every continuation of the schedule — in particular in every quiescent final state.
  * `connectionLost_exactly_once`  connectionLost has been delivered exactly once if the underlying transport is gone,
                             and not at all otherwise.
  * `no_data_after_connectionLost`
- * `app_bytes_intact_partial`  end to end: received(Y) is a prefix of what X wrote before its loseConnection, GIVEN the
-                            engine-pair contract `recvPlain(Y) <+: sentPlain(X)` for the final state.
+ * `both_transports_closed_at_quiescence_partial`  in every quiescent reachable world (`Quiescent`: no delivery, timer,
+                            close completion or EOF enabled; a fixpoint of all non-application steps and of the drain)
+                            in which some transport was told to close, both transports are closed and each application
+                            got exactly one connectionLost.
 
-PARTIAL — what is missing from the full statement:
- (1) the engine-pair contract is a hypothesis of `app_bytes_intact_partial`, not proved for the FakeEngine + transports
-     (it is a statement about the stand-in engine and the fake network, not about Twisted's code; the tie and the
-     oracle exercise it on every run);
- (2) completeness and termination at quiescence ("exactly" rather than "a prefix of"; "both transports eventually
-     closed") are liveness properties of the two-sided handshake/shutdown dance; they are checked on the real code by
-     the oracle of harness/corr/C17.py on every run (keys `lost-bytes`, `not-closed`, `not-quiescent`), not proved;
- (3) producers are outside the model (oracle only).
+PARTIAL — what is still missing from the full statement:
+ (1) PROGRESS of the two-sided dance: that after a loseConnection by either side every fair run reaches (a) a state
+     where some transport has been told to close (needed to drop the hypothesis `tDisc` of
+     `both_transports_closed_at_quiescence_partial`) and (b) — when the receiver neither closes nor aborts first — the
+     clean-close point (needed to drop the hypotheses of `app_bytes_exact_after_clean_close`).  Both need one more
+     invariant: the two engines' flight counters `seen` against the handshake records in flight (no deadlock, no
+     `failed`), and "close_notify is answered".  They are checked on the real code by the oracle of
+     harness/corr/C17.py on every run (keys `lost-bytes`, `not-closed`, `not-quiescent`).
+     Note that "exactly" cannot hold unconditionally: if the receiver closes or aborts first, the peer's later writes
+     are legitimately dropped (the oracle makes the same exception).
+ (2) producers are outside the model (oracle only).
 -/
 namespace TwistedProps.C17
 open Twisted.Transport.Tls
@@ -86,12 +109,141 @@ theorem no_data_after_connectionLost (k : Nat) (cc cs : Cfg) (ops : List Op) (n 
     ((reach k cc cs ops n).get who).late = false :=
   ((reach_inv k cc cs ops n hc hs).get who).1.rest.late
 
-/-- End to end, modulo the engine-pair contract (see the header: PARTIAL). `who` is the receiver. -/
-theorem app_bytes_intact_partial (k : Nat) (cc cs : Cfg) (ops : List Op) (n : Nat) (hc : 0 < cc.recMax)
+/-- the engine-pair + wire invariant (`WInv`, TwistedProps/C17/Wire.lean) of every reachable world -/
+theorem reach_winv (k : Nat) (cc cs : Cfg) (ops : List Op) (n : Nat) (hc : cc.recMax ≤ 255) (hs : cs.recMax ≤ 255) :
+    WInv (reach k cc cs ops n) :=
+  drain_winv n _ (run_winv ops _ (init_winv k cc cs hc hs))
+
+/-- THE ENGINE-PAIR CONTRACT (was a hypothesis): over the FakeEngine pair and the fake wire, what the engine of `who`
+    has decoded from application-data records is a prefix of what the peer's engine accepted through `send` — for
+    every schedule.  Records are `[type,len]++payload` with `len ≤ recMax ≤ 255`, the wire is FIFO, `_flushSendBIO`'s
+    32768-byte slices and a transport that was told to close only ever cut the stream at its tail. -/
+theorem engine_pair_contract (k : Nat) (cc cs : Cfg) (ops : List Op) (n : Nat) (hc : cc.recMax ≤ 255)
+    (hs : cs.recMax ≤ 255) (who : Who) :
+    ((reach k cc cs ops n).get who).e.recvPlain <+: ((reach k cc cs ops n).get who.other).e.sentPlain :=
+  ((reach_winv k cc cs ops n hc hs).chan who).prefix
+
+/-- End to end given any engine pair that satisfies the contract in the final state (kept for record limits > 255,
+    where the one-byte length field of the stand-in's records wraps). `who` is the receiver. -/
+theorem app_bytes_intact_of_contract (k : Nat) (cc cs : Cfg) (ops : List Op) (n : Nat) (hc : 0 < cc.recMax)
     (hs : 0 < cs.recMax) (who : Who)
     (contract : ((reach k cc cs ops n).get who).e.recvPlain <+: ((reach k cc cs ops n).get who.other).e.sentPlain) :
     ((reach k cc cs ops n).get who).rcvd <+: ((reach k cc cs ops n).get who.other).accepted :=
   ((delivered_in_order k cc cs ops n hc hs who).trans contract).trans (sent_in_order k cc cs ops n hc hs who.other)
+
+/-- END TO END, no hypothesis on the run: for every schedule, every number of handshake flights, every record limit
+    1..255 (the range of the stand-in engine), what application `who` has received is a prefix of what the peer wrote
+    before its loseConnection — in order, nothing altered, nothing duplicated. -/
+theorem app_bytes_intact (k : Nat) (cc cs : Cfg) (ops : List Op) (n : Nat) (hc : 0 < cc.recMax) (hs : 0 < cs.recMax)
+    (hc' : cc.recMax ≤ 255) (hs' : cs.recMax ≤ 255) (who : Who) :
+    ((reach k cc cs ops n).get who).rcvd <+: ((reach k cc cs ops n).get who.other).accepted :=
+  app_bytes_intact_of_contract k cc cs ops n hc hs who (engine_pair_contract k cc cs ops n hc' hs' who)
+
+/-- "exactly", at the engine level: once the engine of `who` has read the peer's close_notify, it has decoded exactly
+    the bytes the peer's engine ever accepted (no data record can follow a close_notify, none is lost before it), and —
+    unless `who` aborted — the application has received all of them except what `recv` still holds back. -/
+theorem all_decoded_at_close_notify (k : Nat) (cc cs : Cfg) (ops : List Op) (n : Nat) (hc : 0 < cc.recMax)
+    (hs : 0 < cs.recMax) (hc' : cc.recMax ≤ 255) (hs' : cs.recMax ≤ 255) (who : Who) :
+    let y := (reach k cc cs ops n).get who
+    let x := (reach k cc cs ops n).get who.other
+    y.e.recvSD = true → y.e.recvPlain = x.e.sentPlain ∧ x.e.sentSD = true ∧
+      (y.aborted = false → y.rcvd ++ y.e.plain = x.e.sentPlain) := by
+  intro y x hy
+  obtain ⟨h1, h2⟩ := ((reach_winv k cc cs ops n hc' hs').chan who).exact hy
+  exact ⟨h1, h2, fun ha => (receiver_accounting k cc cs ops n hc hs who ha).trans h1⟩
+
+/-- "exactly", in every state in which the direction `who.other → who` is drained (aggregator, `_appSendBuffer`, send
+    BIO, wire, receive BIO and the engine's decrypted buffer all empty) while the sender's TLS connection is up:
+    the application `who` has received exactly what the peer wrote before its loseConnection. -/
+theorem app_bytes_exact_when_drained (k : Nat) (cc cs : Cfg) (ops : List Op) (n : Nat) (hc : 0 < cc.recMax)
+    (hs : 0 < cs.recMax) (hc' : cc.recMax ≤ 255) (hs' : cs.recMax ≤ 255) (who : Who) :
+    let y := (reach k cc cs ops n).get who
+    let x := (reach k cc cs ops n).get who.other
+    x.lost = false → pendingOf x = [] → x.e.outB = [] → x.out = [] → x.tDisc = false → y.e.inB = [] →
+      y.e.plain = [] → y.aborted = false → y.rcvd = x.accepted := by
+  intro y x hl hp ho hw ht hi hpl ha
+  have h1 := ((reach_winv k cc cs ops n hc' hs').chan who).drained hi hw ho ht
+  have h2 := receiver_accounting k cc cs ops n hc hs who ha
+  have h3 := sender_accounting k cc cs ops n hc hs who.other hl
+  show y.rcvd = x.accepted
+  have h2' : y.rcvd ++ y.e.plain = y.e.recvPlain := h2
+  have h3' : x.e.sentPlain ++ pendingOf x = x.accepted := h3
+  rw [hpl, List.append_nil] at h2'
+  rw [hp, List.append_nil] at h3'
+  rw [h2', ← h3']; exact h1
+
+/-- "exactly the bytes written before the peer's loseConnection", at the clean-close point of the closing dance: the
+    peer `x` has called loseConnection while its TLS connection was up, its `_appSendBuffer` is flushed (so its
+    close_notify is out), and `who` has read that close_notify and holds nothing back.  Then `who` has received exactly
+    what `x` wrote before its loseConnection — every byte, in order, none twice. -/
+theorem app_bytes_exact_at_clean_close (k : Nat) (cc cs : Cfg) (ops : List Op) (n : Nat) (hc : 0 < cc.recMax)
+    (hs : 0 < cs.recMax) (hc' : cc.recMax ≤ 255) (hs' : cs.recMax ≤ 255) (who : Who) :
+    let y := (reach k cc cs ops n).get who
+    let x := (reach k cc cs ops n).get who.other
+    x.closed = true → x.lost = false → x.buf = [] → y.e.recvSD = true → y.e.plain = [] → y.aborted = false →
+      y.rcvd = x.accepted := by
+  intro y x hcl hl hb hy hpl ha
+  obtain ⟨-, -, h3⟩ := all_decoded_at_close_notify k cc cs ops n hc hs hc' hs' who hy
+  have h3' : y.rcvd ++ y.e.plain = x.e.sentPlain := h3 ha
+  have h4 : x.e.sentPlain ++ pendingOf x = x.accepted := sender_accounting k cc cs ops n hc hs who.other hl
+  have hp : pendingOf x = [] := by simp [pendingOf, hb, hcl]
+  rw [hpl, List.append_nil] at h3'
+  rw [hp, List.append_nil] at h4
+  show y.rcvd = x.accepted
+  rw [h3', h4]
+
+/-- "EXACTLY", in every state after the clean-close point — in particular in every quiescent final state: if the
+    schedule `ops1` brings the connection to a clean-close point for the direction `who.other → who` (hypotheses of
+    `app_bytes_exact_at_clean_close`), then whatever happens afterwards (any further schedule `ops2` of writes,
+    loseConnections, deliveries, ticks, closes, EOFs, then any number of drain rounds), `who` has received exactly the
+    bytes the peer wrote before its loseConnection: nothing is added, lost or reordered later on.
+    PARTIAL w.r.t. the full statement only in that reaching the clean-close point (when the receiver does not close or
+    abort first) is the same progress argument that is missing from `both_transports_closed_at_quiescence_partial`. -/
+theorem app_bytes_exact_after_clean_close (k : Nat) (cc cs : Cfg) (ops1 ops2 : List Op) (n : Nat) (hc : 0 < cc.recMax)
+    (hs : 0 < cs.recMax) (hc' : cc.recMax ≤ 255) (hs' : cs.recMax ≤ 255) (who : Who) :
+    let y1 := (reach k cc cs ops1 0).get who
+    let x1 := (reach k cc cs ops1 0).get who.other
+    let y := (reach k cc cs (ops1 ++ ops2) n).get who
+    let x := (reach k cc cs (ops1 ++ ops2) n).get who.other
+    x1.closed = true → x1.lost = false → x1.buf = [] → y1.e.recvSD = true → y1.e.plain = [] → y1.aborted = false →
+      y.rcvd = x.accepted ∧ x.accepted = x1.accepted := by
+  intro y1 x1 y x hcl hl hb hy hpl ha
+  have h1 : y1.rcvd = x1.accepted :=
+    app_bytes_exact_at_clean_close k cc cs ops1 0 hc hs hc' hs' who hcl hl hb hy hpl ha
+  have hm : MonoW (reach k cc cs ops1 0) (reach k cc cs (ops1 ++ ops2) n) := by
+    unfold reach
+    rw [run_append]
+    exact (run_mono ops2 _).trans (drain_mono n _)
+  have m1 : y1.rcvd <+: y.rcvd := (hm who).1
+  have m2 : x.accepted = x1.accepted := ((hm who.other).2 hcl).2
+  have h2 : y.rcvd <+: x.accepted := app_bytes_intact k cc cs (ops1 ++ ops2) n hc hs hc' hs' who
+  refine ⟨?_, m2⟩
+  rw [m2, ← h1] at h2 ⊢
+  exact h2.eq_of_length (Nat.le_antisymm h2.length_le m1.length_le)
+
+/-- Termination, the part that is proved: in every QUIESCENT reachable world (no delivery, timer, close completion or
+    EOF is enabled — `Quiescent`, a fixpoint of every non-application step and of the drain: `Quiescent.fix`,
+    `Quiescent.drain`) in which some underlying transport was told to close, BOTH underlying transports are closed and
+    each application got exactly one connectionLost.
+    PARTIAL — missing for the full `both_transports_eventually_closed`: that a loseConnection by either side always
+    leads to some transport being told to close before quiescence (progress of the two-sided handshake / close_notify
+    dance: needs an invariant tying the two engines' flight counters to the handshake records in flight). -/
+theorem both_transports_closed_at_quiescence_partial (k : Nat) (cc cs : Cfg) (ops : List Op) (n : Nat)
+    (hc : 0 < cc.recMax) (hs : 0 < cs.recMax) (who : Who) :
+    let w := reach k cc cs ops n
+    Quiescent w → (w.get who).tDisc = true →
+      w.c.tGone = true ∧ w.s.tGone = true ∧ w.c.lostN = 1 ∧ w.s.lostN = 1 := by
+  intro w hq hd
+  obtain ⟨g1, g2⟩ := hq.both_gone who hd
+  have gc : w.c.tGone = true := by cases who <;> assumption
+  have gs : w.s.tGone = true := by cases who <;> assumption
+  have lc := connectionLost_exactly_once k cc cs ops n hc hs .c
+  have ls := connectionLost_exactly_once k cc cs ops n hc hs .s
+  refine ⟨gc, gs, ?_, ?_⟩
+  · have : w.c.lostN = (if w.c.tGone then 1 else 0) := lc
+    rw [this, gc]; rfl
+  · have : w.s.lostN = (if w.s.tGone then 1 else 0) := ls
+    rw [this, gs]; rfl
 
 /-! ### non-vacuity: a concrete schedule (write during the handshake, write from handshakeCompleted, byte-wise and
 bulk deliveries, loseConnection, drain) on which the hypotheses hold and the conclusions are non-trivial -/
@@ -104,11 +256,29 @@ def exW : World := reach 2 exCfgC exCfgS exOps 12
 example : exW.s.rcvd = [0, 1, 2, 100, 101] ∧ exW.c.accepted = [0, 1, 2, 100, 101] := by decide +kernel
 example : exW.c.rcvd = [7, 8] ∧ exW.s.accepted = [7, 8] := by decide +kernel
 example : exW.s.e.recvPlain = exW.c.e.sentPlain ∧ exW.c.e.sentPlain ≠ [] := by decide +kernel
+example : exW.s.e.recvSD = true ∧ exW.s.aborted = false ∧ exW.c.e.recvSD = true := by decide +kernel
+/-- a drained intermediate state (no loseConnection yet) in which the hypotheses of `app_bytes_exact_when_drained` hold -/
+def exD : World := reach 2 exCfgC exCfgS [.W .c 0 3, .D .s 99, .D .c 99, .D .s 99] 0
+example : exD.c.lost = false ∧ pendingOf exD.c = [] ∧ exD.c.e.outB = [] ∧ exD.c.out = [] ∧ exD.c.tDisc = false ∧
+    exD.s.e.inB = [] ∧ exD.s.e.plain = [] ∧ exD.s.aborted = false ∧ exD.s.rcvd = [0, 1, 2, 100, 101] := by decide +kernel
 example : exW.c.lostN = 1 ∧ exW.s.lostN = 1 ∧ exW.c.tGone = true ∧ exW.s.tGone = true ∧ exW.s.late = false := by
   decide +kernel
 example : (reach 2 exCfgC exCfgS [.W .c 0 3] 0).c.lost = false ∧
     pendingOf (reach 2 exCfgC exCfgS [.W .c 0 3] 0).c = [0, 1, 2] := by decide +kernel
 example : (reach 2 exCfgC exCfgS exOps 0).s.lostN = 0 ∧ (reach 2 exCfgC exCfgS exOps 0).s.tGone = false := by
   decide +kernel
+
+/-- the final world of the example is quiescent, and a transport was told to close -/
+example : Quiescent exW ∧ exW.c.tDisc = true :=
+  ⟨⟨fun who => by cases who <;> decide +kernel, fun who => by cases who <;> decide +kernel,
+    fun who => by cases who <;> decide +kernel, fun who => by cases who <;> decide +kernel⟩, by decide +kernel⟩
+/-- the clean-close point: c called loseConnection, s has read c's close_notify, c has not yet seen the reply -/
+def exK : World := reach 2 exCfgC exCfgS [.W .c 0 3, .D .s 99, .D .c 99, .D .s 99, .L .c, .D .s 99] 0
+example : exK.c.closed = true ∧ exK.c.lost = false ∧ exK.c.buf = [] ∧ exK.s.e.recvSD = true ∧ exK.s.e.plain = [] ∧
+    exK.s.aborted = false ∧ exK.s.rcvd = [0, 1, 2, 100, 101] ∧ exK.c.tGone = false := by decide +kernel
+
+/-- after the clean-close point `exK` the schedule goes on (more writes by both sides, deliveries, drain) -/
+example : (reach 2 exCfgC exCfgS ([.W .c 0 3, .D .s 99, .D .c 99, .D .s 99, .L .c, .D .s 99] ++ [.W .c 9 9, .W .s 1 1, .D .c 1]) 12).s.rcvd
+    = [0, 1, 2, 100, 101] := by decide +kernel
 
 end TwistedProps.C17
